@@ -230,4 +230,19 @@ theorem zip_replicate_true_filterMap {β : Type} (vals : List β) :
   | nil => rfl
   | cons v t ih => simp [List.replicate_succ, ih]
 
+theorem quantilesAt_ok (s : List α) (hs : s ≠ []) (qs : List α) (hq : ∀ q ∈ qs, 0 ≤ q ∧ q ≤ 1) :
+    ∃ vs, quantilesAt s qs = .ok vs ∧ vs.length = qs.length := by
+  obtain ⟨first, hf⟩ : ∃ first, s.head? = some first := by
+    cases s with
+    | nil => exact absurd rfl hs
+    | cons a t => exact ⟨a, rfl⟩
+  obtain ⟨last, hl⟩ : ∃ last, s.getLast? = some last := ⟨_, List.getLast?_eq_some_getLast hs⟩
+  induction qs with
+  | nil => exact ⟨[], rfl, rfl⟩
+  | cons q t ih =>
+    obtain ⟨vs, hvs, hlen⟩ := ih (fun q' hq' => hq q' (List.mem_cons_of_mem _ hq'))
+    obtain ⟨h0, h1⟩ := hq q (by simp)
+    refine ⟨interpG (fun i => s.getD i last) (s.length - 1) (((s.length - 1 : Nat) : α) * q) :: vs, ?_, by simp [hlen]⟩
+    simp only [quantilesAt, pquantile, quantile_eq s first last hf hl q h0 h1, hvs]
+
 end HydroVerif.C20
